@@ -91,6 +91,13 @@ func init() {
 			fr.m.noAssume = false
 			return nil
 		},
+		// AllocLimit(id, n): from here on every slice allocation of the code under test must be
+		// at most n bytes for every value of the inputs (n = 0 switches the check off)
+		"harness/vrt.AllocLimit": func(fr *frame, a []value) value {
+			fr.m.allocID = a[0].(string)
+			fr.m.allocLimit = fr.m.concretize("alloclimit", a[1].(*Term), 1)
+			return nil
+		},
 		"harness/vrt.Reach": func(fr *frame, a []value) value {
 			fr.m.reached[a[0].(string)]++
 			fr.m.events = append(fr.m.events, event{Kind: "R", ID: a[0].(string)})
@@ -570,6 +577,67 @@ func (m *Machine) checkAssert(id string, c *Term) {
 		m.incon = append(m.incon, "assert "+id+": solver "+r)
 	}
 	m.events = append(m.events, event{Kind: "A", ID: id})
+}
+
+// checkAlloc: with an allocation limit set, "capacity * element size <= limit" is an
+// assertion like any other (id chosen by the harness) - decided by the solver for all values of
+// the inputs the capacity was computed from. Passing checks leave no event (natively the limit
+// is checked once, at the end, through runtime.MemStats).
+func (m *Machine) checkAlloc(capT *Term, elemSize uint64) {
+	if m.allocLimit == 0 || m.allocID == "" || foreignAssertion(m.allocID) {
+		return
+	}
+	if elemSize == 0 {
+		elemSize = 1
+	}
+	if capT.W != 64 {
+		capT = ZeroExt(64, capT)
+	}
+	c := Cmp("bvule", capT, BV(64, m.allocLimit/elemSize)) // unsigned: a negative capacity is out of bounds too
+	m.asserts[m.allocID]++
+	m.assertsChecked++
+	if c == True {
+		return
+	}
+	m.touch(c)
+	if c != False {
+		if m.solver.CheckWith(Not(c)) != "sat" {
+			return
+		}
+		// a counterexample the native replay can measure: prefer inputs that make the allocation
+		// large (at least 64 MiB, else a megabyte over the limit, else anything over the limit)
+		pushed := false
+		for _, th := range []uint64{1 << 26, m.allocLimit + 1<<20, m.allocLimit} {
+			if th < m.allocLimit {
+				continue
+			}
+			big := Not(Cmp("bvule", capT, BV(64, th/elemSize)))
+			m.touch(big)
+			m.solver.Push()
+			m.solver.Assert(big)
+			if r := m.solver.Check(); r == "sat" {
+				pushed = true
+				break
+			}
+			m.solver.Pop()
+		}
+		if !pushed {
+			m.incon = append(m.incon, "alloc "+m.allocID+": solver gave no model")
+			return
+		}
+	} else {
+		m.solver.Push()
+		if r := m.solver.Check(); r != "sat" {
+			m.solver.Pop()
+			return
+		}
+	}
+	m.recordViolation(m.allocID, "assert", fmt.Sprintf("allocation of %s elements of %d bytes can exceed the limit of %d bytes", capT, elemSize, m.allocLimit), Not(c))
+	m.solver.Pop()
+	// the path ends here: a capacity computed from the input has far too many feasible values to
+	// case-split (it would be cut at the allocation anyway), and the violation is on record
+	m.cuts++
+	panic(pathAbort{"cut: allocation limit " + m.allocID + " can be exceeded here"})
 }
 
 func trimPkg(s string) string { return s[strings.LastIndex(s, "/")+1:] }
